@@ -23,8 +23,59 @@ def run(ctx, rep):
         flag_writers(ctx, rep, impl)
     from props import c18
     c18.connect(ctx, rep, flag_only=True)
+    constructors(ctx, rep)
     rep.floor("R9.2", 4 * len(net.impls_present(ctx)))
     rep.floor("R9.3", 2 * len(net.impls_present(ctx)))
+
+
+GATE = "insim::packet::Packet::maybe_verify_version"
+
+
+def constructors(ctx, rep):
+    """R9.5 who-may-construct: Error::IncompatibleVersion is built only by the gate (or a helper that only the gate calls):
+    the flag decides whether the gate runs (R9.2), so no other code may reject a peer's version."""
+    import panics
+    sites = []
+    for n in sorted(ctx.mir.bodies):
+        if n.endswith("#promoted") and n[:-len("#promoted")] in ctx.mir.bodies and not ctx.mir.bodies[n[:-len("#promoted")]].get("coroutine"):
+            continue
+        raw = ctx.mir.bodies[n]
+        for bl in raw["blocks"]:
+            for st in bl["stmts"]:
+                if st["k"] == "assign" and st["rv"]["k"] == "agg" and st["rv"].get("agg") == "adt" and st["rv"].get("adt") == "insim::error::Error" \
+                        and st["rv"].get("vname") == "IncompatibleVersion":
+                    # a copy of an existing IncompatibleVersion value (derived Clone) constructs nothing new
+                    bb_ = ctx.mir.body(n)
+                    x = bb_.origin(st["rv"]["ops"][0]) if bb_ is not None and st["rv"]["ops"] else None
+                    for _ in range(6):
+                        if x is None:
+                            break
+                        if x[0] in ("ref", "deref"):
+                            x = x[1]
+                        elif x[0] == "call" and (x[1] or "").endswith("Clone::clone") and x[3]:
+                            x = x[3][0]
+                        else:
+                            break
+                    if x is not None and x[0] == "field" and x[1][0] == "downcast" and x[1][3] == "IncompatibleVersion":
+                        continue
+                    sites.append((n.split("#")[0], st.get("line")))
+    rep.check("R9.5", "constructed", len(sites) >= 1, "no construction of Error::IncompatibleVersion found (anchor lost)", None, nontrivial=False)
+    for fn, line in sorted(set(sites)):
+        f = fn.split("::{closure")[0]
+        ok = f == GATE
+        g = f
+        for _ in range(3):
+            if ok:
+                break
+            g = panics.sole_caller(ctx.mir, g)
+            if g is None:
+                break
+            ok = g == GATE
+        b = ctx.mir.body(fn)
+        rep.check("R9.5", "constructor:%s" % f, ok,
+                  "Error::IncompatibleVersion is constructed in %s: only Packet::maybe_verify_version (which read() calls under the verify_version flag) may reject a version" % f,
+                  b.loc(line) if b is not None else None, sample={"function": f})
+    rep.floor("R9.5", 2)
 
 
 def table(ctx, rep):
